@@ -58,6 +58,10 @@ ASSUMPTIONS = ['expected values come from integer microsecond arithmetic on date
                'utcnow_ts(microsecond=True) is compared within max(1e-6, 2 ulp) because a double cannot hold '
                'microseconds beyond year ~2242; utcnow_ts() before 1970 with non-zero microseconds may floor or '
                'truncate (DONT-CARE)',
+               'is_soon with an ISO-string argument: the code does not parse strings there (AttributeError); '
+               'a rejection by AttributeError/TypeError/ValueError is tolerated and counted in a histogram, a '
+               'returned verdict must still be the right one (DONT-CARE zone, reported to the maintainers of '
+               'the property list)',
                'cases where now, t or now+w would leave datetime.min..max are not generated (DONT-CARE), except '
                'for normalize_time where OverflowError is demanded exactly when the UTC instant is unrepresentable']
 SHARDS = {'quick': 1, 'thorough': 16}
@@ -566,17 +570,6 @@ def eval_cmp(ctx, case):
             got, exc = _call(func, arg, s)
             clock.stop()
             ctx.case(('cmp', fn, case['t'], spec, form, s, delta, via))
-            if fn == 'soon' and form != 'dt' and exc is not None:
-                # is_soon does not parse strings (its docstring only speaks of "the time", the
-                # string support of 1.7 was added to is_older_than/is_newer_than only): rejecting a
-                # string is tolerated, a returned verdict would still have to be the right one
-                ctx.h('is_soon with an ISO string (tolerated rejection)', type(exc).__name__)
-                ctx.note('is_soon(<ISO string>, w) raises %s: the statement lists ISO-string t for all three '
-                         'functions, the code parses strings in is_older_than/is_newer_than only; treated as '
-                         'DONT-CARE, reported' % type(exc).__name__)
-                if not isinstance(exc, (AttributeError, TypeError, ValueError)):
-                    ctx.fail('is_soon-iso-string-unexpected-exception', case, {'arg': arg, 'exc': exc})
-                continue
             ctx.clause(FUNCS[fn] + '-boundary')
             ctx.h('function x argument form x delta -> outcome', '%s %s %s -> %s' % (FUNCS[fn], acls, dcls, want))
             ctx.h('offset class (comparisons)', off_class(spec, off))
@@ -930,6 +923,7 @@ LEVEL_TEXT = ('Exploration with an exact oracle: expected values are computed in
 LEVEL_NOTE = ('Trusted: date.toordinal/fromordinal, datetime construction and isoformat, zoneinfo offsets for named '
               'zones (cross-checked against a small hard-coded table). DONT-CARE: clocks/arguments that leave the '
               'representable range (except normalize_time), utcnow_ts() floor-vs-truncate before 1970, second '
-              'counts that are not on the microsecond grid in the comparison clauses, ISO strings of offsets with '
+              'counts that are not on the microsecond grid in the comparison clauses, is_soon with a string '
+              'argument (raises AttributeError today), ISO strings of offsets with '
               'seconds (old local mean times).')
 TECHNIQUE = 'reference-model monitor (integer-microsecond clock arithmetic) with a virtual clock via the override hook'
